@@ -54,7 +54,33 @@ def _callee_path(term):
     f = term.get("f") or {}
     if f.get("unres"):
         return None
+    if f.get("path") == "std::convert::Into::into" and term.get("rty") and term.get("argtys"):
+        # `x.into()` runs the crate's `From` impl for the target type (std's blanket impl only forwards)
+        k = (_lt(term["argtys"][0]), _lt(term["rty"]))
+        if k in FROM_INDEX:
+            return FROM_INDEX[k]
     return f.get("rpath") or f.get("path")
+
+
+FROM_INDEX = {}      # (source type, target type) -> path of a fresh `From` impl (filled per run by inline_fresh)
+
+
+def _lt(ty):
+    import re as _r
+    return _r.sub(r"'\w+", "'_", ty or "")
+
+
+def _index_from_impls(paths):
+    import re as _r
+    FROM_INDEX.clear()
+    for p in paths:
+        m = _r.match(r"^<(.*) as std::convert::From<(.*)>>::from$", p)
+        if m:
+            FROM_INDEX[(_lt(m.group(2)), _lt(m.group(1)))] = p
+            continue
+        m = _r.match(r"^(?:.*::)?<impl std::convert::From<(.*)> for (.*)>::from$", p)
+        if m:
+            FROM_INDEX[(_lt(m.group(1)), _lt(m.group(2)))] = p
 
 
 def _calls_in(body):
@@ -295,13 +321,18 @@ def inline_fresh(j, fresh):
     for b in j["bodies"]:
         if b["kind"] in FN_KINDS:
             bodies.setdefault(b["path"], b)
+    _index_from_impls(fresh)
+    keep_body = set()
     cands = {}
     for p in fresh:
         b = bodies.get(p)
         if b is None:
             continue
-        if b.get("no_mangle") or (b.get("abi") not in (None, "Rust")) or (b.get("pub") and b.get("reachable")):
+        exported = bool(b.get("pub") and b.get("reachable"))
+        if b.get("no_mangle") or (b.get("abi") not in (None, "Rust")) or (exported and not b.get("impl_trait")):
             continue
+        if exported:
+            keep_body.add(p)        # a trait impl others may call: analysed inlined where the crate calls it, but it stays
         if len(b["blocks"]) > MAX_BLOCKS:
             continue
         cands[p] = b
@@ -343,7 +374,7 @@ def inline_fresh(j, fresh):
                 still.add(c)
     import json as _json
     for p in list(done):
-        if p in still:
+        if p in still or p in keep_body:
             continue
         # function-value references: the path appears as a constant "fn" somewhere else
         needle = '"fn": %s' % _json.dumps(p)
@@ -527,7 +558,7 @@ def split_bool_merges(body, max_new=60):
 FN_TRAIT_CALLS = ("std::ops::Fn::call", "std::ops::FnMut::call_mut", "std::ops::FnOnce::call_once")
 
 
-def inline_local_closure_calls(j, max_blocks=120):
+def inline_local_closure_calls(j, known=(), max_blocks=120):
     """`let check = |fd| verify(root_id, fd); ... check(&next)?` -- a closure that is defined and called directly in
     the same function is a local helper: its body is analysed inlined at the call (the closure body itself stays)."""
     bodies = {b["path"]: b for b in j["bodies"]}
@@ -545,10 +576,52 @@ def inline_local_closure_calls(j, max_blocks=120):
             c = bodies.get(f.get("rpath"))
             if c is None or c["kind"] != "closure" or c.get("parent") != b["path"] or len(c["blocks"]) > max_blocks:
                 continue
+            if c["path"] in known:
+                continue        # a closure of the reference tree: the rules know it as a closure
             if any((x.get("term") or {}).get("k") == "call" and ((x["term"].get("f") or {}).get("rpath") == c["path"]) for x in c["blocks"]):
                 continue
             _inline_site(b, bi, c, untuple=True)
             done.setdefault(c["path"], []).append(b["path"])
+    # a closure that is only ever called directly (never handed to another function) has no life of its own: drop its body
+    for cpath, parents in list(done.items()):
+        c = bodies[cpath]
+        parent = bodies.get(c.get("parent"))
+        if parent is None:
+            continue
+        # locals holding the closure value or a reference to it
+        held = set()
+        for blk in parent["blocks"]:
+            for st in blk["stmts"]:
+                if st.get("k") == "assign" and not st["lhs"].get("p"):
+                    rv = st.get("rv") or {}
+                    if rv.get("k") == "agg" and rv.get("closure") == cpath:
+                        held.add(st["lhs"]["l"])
+        for _ in range(3):
+            for blk in parent["blocks"]:
+                for st in blk["stmts"]:
+                    if st.get("k") == "assign" and not st["lhs"].get("p"):
+                        rv = st.get("rv") or {}
+                        src = None
+                        if rv.get("k") in ("ref", "rawptr"):
+                            src = rv["p"]
+                        elif rv.get("k") == "use":
+                            src = rv["a"].get("c") or rv["a"].get("m")
+                        if src and src.get("l") in held and all(e == "*" for e in src.get("p", [])) and not st.get("inl"):
+                            held.add(st["lhs"]["l"])
+        escapes = False
+        for b in j["bodies"]:
+            for blk in b["blocks"]:
+                t = blk.get("term") or {}
+                if t.get("k") == "call":
+                    if (t.get("f") or {}).get("rpath") == cpath:
+                        escapes = True          # a call site that was not inlined
+                    if b is parent:
+                        for a in t.get("args", []):
+                            pl = a.get("c") or a.get("m")
+                            if pl and pl.get("l") in held:
+                                escapes = True  # handed to some function
+        if not escapes:
+            j["bodies"] = [b for b in j["bodies"] if not (b["path"] == cpath or b["path"].startswith(cpath + "::{"))]
     return done
 
 
